@@ -137,7 +137,7 @@ def c02_equiv_mixed(t: T6, m: int, sx: int, fx: int, dy: D4, sy: int, fy: int) -
     pre: ((0 <= m) & (m <= 2)) & ((0 <= sx) & (sx < 4)) & ((0 <= fx) & (fx < 4))
     pre: enc.sparse_ranges(t, 2, 2)
     pre: sparse_canonical(t, m)
-    pre: enc.in_range(dy, 3) & ((0 <= sy) & (sy <= 2)) & ((0 <= fy) & (fy < 4))
+    pre: enc.in_range(dy, 3) & ((0 <= sy) & (sy <= 2)) & ((0 <= fy) & (fy < 4)) & (dy[1] == 0) & (dy[3] == 0)
     post: _
     """
     raw = (t, m, sx, fx, dy, sy, fy)
@@ -265,11 +265,11 @@ def _sh_min52(tier):
 def _sh_equiv_dfa(tier):
     if tier == "quick":
         return product_pins(sx=[1], sy=[0, 1], fx=[1, 2], yalpha=[0, 1], dx0=[0, 1, 2])
-    return product_pins(sx=[0, 1, 2], sy=[0, 1, 2], fx=[0, 1, 2, 3], yalpha=[0, 1])
+    return product_pins(sx=[1], sy=[0, 1, 2], fx=[0, 1, 2, 3], yalpha=[0, 1], dx0=[0, 1, 2])
 
 
 def _sh_equiv_mixed(tier):
-    return product_pins(m=[0, 1, 2], sx=[1, 2, 3], fx=[1, 2, 3], sy=[1])
+    return product_pins(m=[1, 2], sx=[1, 3], fx=[2], sy=[1], t1=[0, 1, 2])
 
 
 def _sh_min31(tier):
@@ -301,11 +301,11 @@ CONDS = [
          {"quick": "ordered pairs X,Y of partial DFAs with 2 states over one symbol: X start=state 0, final mask "
                    "{0} or {1} (18), Y start none or state 0 (72), Y's symbol = X's or a different one; ==, and "
                    "minimise-isomorphism for equivalent pairs",
-          "thorough": "all 108 x 108 ordered pairs x same/different alphabet; is_equivalent_to both ways and =="},
+          "thorough": "X with start state 0 (36) x all 108 Y x same/different alphabet; is_equivalent_to both ways and =="},
          FUNCS, RULE),
     Cond("C02", c02_equiv_mixed, _sh_equiv_mixed,
-         {"thorough": "X eps-NFA 2 states over {a,b} with <=2 edges (eps allowed), any non-empty masks; "
-                      "Y partial DFA 2 states over {a,b} start 0"},
+         {"thorough": "X eps-NFA 2 states over {a,b} with 1-2 edges (eps allowed), starts {0}/{0,1}, final {1}; "
+                      "Y partial DFA 2 states over {a} (no b-transitions), start 0"},
          FUNCS, RULE, tiers=("thorough",)),
     Cond("C02", c02_minimal_31, _sh_min31,
          {"quick": "partial DFAs with 3 states over {a}: 4^3 transition tables (sharded), start in {none,0,1}, "
